@@ -13,6 +13,7 @@ import (
 )
 
 type visit struct {
+	prefix bool
 	a, b uintptr
 	t    reflect.Type
 }
@@ -175,13 +176,21 @@ func (c *cmp) eq(a, b reflect.Value, path string) bool {
 			}
 			return c.fail(path, "nil pointer vs non-nil")
 		}
-		v := visit{a.Pointer(), b.Pointer(), a.Type()}
+		v := visit{c.prefix, a.Pointer(), b.Pointer(), a.Type()}
 		if c.seen[v] {
 			return true
 		}
 		c.seen[v] = true
 		return c.eq(a.Elem(), b.Elem(), path+"*")
 	case reflect.Slice:
+		if a.Len() > 0 && b.Len() > 0 {
+			// containers can be cyclic (local references): compare each pair once
+			v := visit{c.prefix, a.Pointer(), b.Pointer(), a.Type()}
+			if c.seen[v] {
+				return true
+			}
+			c.seen[v] = true
+		}
 		if c.prefix {
 			return c.slicePrefix(a, b, path)
 		}
@@ -205,6 +214,13 @@ func (c *cmp) eq(a, b reflect.Value, path string) bool {
 			}
 		}
 	case reflect.Map:
+		if !a.IsNil() && !b.IsNil() {
+			v := visit{c.prefix, a.Pointer(), b.Pointer(), a.Type()}
+			if c.seen[v] {
+				return true
+			}
+			c.seen[v] = true
+		}
 		if c.prefix {
 			return c.mapPrefix(a, b, path)
 		}
@@ -238,7 +254,7 @@ func (c *cmp) findKey(m reflect.Value, k reflect.Value) (reflect.Value, bool) {
 	}
 	it := m.MapRange()
 	for it.Next() {
-		sub := &cmp{seen: map[visit]bool{}}
+		sub := &cmp{seen: c.seen}
 		if sub.eq(k, it.Key(), "") {
 			return it.Value(), true
 		}
@@ -257,12 +273,12 @@ func (c *cmp) mapSub(a, b reflect.Value, path string, allowOnePartial bool) bool
 		if !ok {
 			return c.fail(p, "key not present in the other map")
 		}
-		full := &cmp{seen: map[visit]bool{}}
+		full := &cmp{seen: c.seen}
 		if full.eq(it.Value(), bv, p) {
 			continue
 		}
 		if allowOnePartial && !partialUsed {
-			pc := &cmp{seen: map[visit]bool{}, prefix: true}
+			pc := &cmp{seen: c.seen, prefix: true}
 			if pc.eq(it.Value(), bv, p) {
 				partialUsed = true
 				continue
@@ -302,7 +318,7 @@ func Prefix(partial, full interface{}) (bool, string) {
 	return ok, c.why
 }
 
-func (c *cmp) full() *cmp { return &cmp{seen: map[visit]bool{}} }
+func (c *cmp) full() *cmp { return &cmp{seen: c.seen} }
 
 func isByteLike(t reflect.Type) bool {
 	switch t.Elem().Kind() {
@@ -415,7 +431,7 @@ func (c *cmp) structPrefix(a, b reflect.Value, path string) bool {
 		if partialUsed {
 			return c.fail(p, "second incomplete field (%s)", f.why)
 		}
-		pc := &cmp{seen: map[visit]bool{}, prefix: true}
+		pc := &cmp{seen: c.seen, prefix: true}
 		if !pc.eq(fa, fb, p) {
 			return c.fail(p, "field neither zero, equal nor a prefix (%s)", pc.why)
 		}
